@@ -10,7 +10,6 @@ From V.proofs Require RelLossyP RelConvP.
 From V.model Require Import RelAcc RelGrammar RelGrammarAll.
 From V.proofs Require Import BaseP RelLexP RelParseP RelGrammarLexP RelGrammarParseP RelGrammarAccP RelLexInvP
   RelGrammarAllParseP RelGrammarAllInvP RelGrammarAllAccP.
-Set Default Timeout 60.
 
 Notation tSP := RelLossyP.tSP.
 
